@@ -112,6 +112,12 @@ def catalogue():
         add(f"sort-s-k-{asc}", "sort", [S("v1", "sort_values", ["A"], by=["s", "rid"], ascending=asc, na_position="last")])
     for col in ("i", "k", "rid"):
         add(f"set_index-{col}", "sort", [S("v1", "set_index", ["A"], col=col, drop=True)])
+    for col in ("m", "i"):
+        add(f"set_index-sorted-{col}", "sort", [S("v1", "set_index", ["A"], col=col, drop=True, sorted=True)])
+        add(f"set_index-sorted-{col}-keep", "sort", [S("v1", "set_index", ["A"], col=col, drop=False, sorted=True), S("v2", "cols", ["v1"], cols=["f", "rid"])])
+    add("set_index-m-shuffle", "sort", [S("v1", "set_index", ["A"], col="m", drop=True)])
+    add("sort-m", "sort", [S("v1", "sort_values", ["A"], by=["m", "rid"], ascending=True, na_position="last")])
+    add("groupby-m-sum", "groupby", [S("v1", "groupby_agg", ["A"], by=["m"], col="f", how="sum", split_out=1, sort=None)])
     add("set_index-str", "sort", [S("v0", "dropna", ["A"], subset=["s"]), S("v1", "set_index", ["v0"], col="s", drop=False)])
     for n in (1, 3, 7):
         add(f"nlargest-{n}", "topk", [S("v1", "nlargest", ["A"], how="nlargest", n=n, col="i")])
